@@ -53,16 +53,17 @@ struct Buf {
 // reference model of one sketch: only what the statement talks about
 struct Model {
   bool live; uint32_t k; uint64_t n; double cum, wmax;
+  int first;                             // own items before this index were given before the last reset(): no longer inputs
   int nown; double wown[MAXN];           // weights of the items this slot was updated with (id = base + arrival index)
   int merged_from[NSLOT];                // 1 if the inputs of that slot were merged into this one
   bool merged;                           // took part in a merge as the target
-  Model(): live(false), k(0), n(0), cum(0), wmax(0), nown(0), merged(false) { for (int i = 0; i < NSLOT; ++i) merged_from[i] = 0; for (int i = 0; i < MAXN; ++i) wown[i] = 0; }
+  Model(): live(false), k(0), n(0), cum(0), wmax(0), first(0), nown(0), merged(false) { for (int i = 0; i < NSLOT; ++i) merged_from[i] = 0; for (int i = 0; i < MAXN; ++i) wown[i] = 0; }
   double c() const { return n == 0 ? 0.0 : std::min((double)k, cum / wmax); }
 };
 
 struct Slot { std::shared_ptr<Sk> sk; Model m; };
 
-enum Kind { K_NEW, K_UPD, K_MERGE_L, K_MERGE_R, K_RES, K_RIT, K_SER, K_SST, K_NONE };
+enum Kind { K_NEW, K_UPD, K_MERGE_L, K_MERGE_R, K_RES, K_RIT, K_SER, K_SST, K_RESET, K_NONE };
 
 struct State {
   Slot s[NSLOT];
@@ -81,20 +82,20 @@ static double input_weight(const State& st, int t, int id) {
   for (int j = 0; j < NSLOT; ++j) {
     if (j != t && !st.s[t].m.merged_from[j]) continue;
     const Model& m = st.s[j].m;
-    if (id >= ID_BASE[j] && id < ID_BASE[j] + m.nown) return m.wown[id - ID_BASE[j]];
+    if (id >= ID_BASE[j] + m.first && id < ID_BASE[j] + m.nown) return m.wown[id - ID_BASE[j]];
   }
   return -1;
 }
 static std::vector<int> input_ids(const State& st, int t) {
   std::vector<int> v;
-  for (int j = 0; j < NSLOT; ++j) { if (j != t && !st.s[t].m.merged_from[j]) continue; for (int i = 0; i < st.s[j].m.nown; ++i) v.push_back(ID_BASE[j] + i); }
+  for (int j = 0; j < NSLOT; ++j) { if (j != t && !st.s[t].m.merged_from[j]) continue; for (int i = st.s[j].m.first; i < st.s[j].m.nown; ++i) v.push_back(ID_BASE[j] + i); }
   return v;
 }
 
 struct EbSys {
   typedef ::State State;
   std::vector<OpDef> ops; std::string nm;
-  size_t OP_NEW[NSLOT][6], OP_UPD[NSLOT][3], OP_ML[NSLOT], OP_MR[NSLOT], OP_RES, OP_RIT, OP_SER[NSLOT], OP_SST[NSLOT];
+  size_t OP_RESET, OP_NEW[NSLOT][6], OP_UPD[NSLOT][3], OP_ML[NSLOT], OP_MR[NSLOT], OP_RES, OP_RIT, OP_SER[NSLOT], OP_SST[NSLOT];
 
   EbSys(): nm("stream") {
     const char* SN = "ABC"; const char* sn = "abc";
@@ -103,6 +104,7 @@ struct EbSys {
     for (int s = 1; s < NSLOT; ++s) { OP_ML[s] = ops.size(); add(K_MERGE_L, s, 0, std::string("Ml") + SN[s]); OP_MR[s] = ops.size(); add(K_MERGE_R, s, 0, std::string("Mr") + SN[s]); }
     OP_RES = ops.size(); add(K_RES, 0, 0, "res");
     OP_RIT = ops.size(); add(K_RIT, 0, 0, "rit");
+    OP_RESET = ops.size(); add(K_RESET, 0, 0, "reset");
     for (int s = 0; s < NSLOT; ++s) { OP_SER[s] = ops.size(); add(K_SER, s, 0, std::string("ser") + SN[s]); OP_SST[s] = ops.size(); add(K_SST, s, 0, std::string("sst") + SN[s]); }
   }
   void add(Kind k, int slot, int arg, const std::string& n) { OpDef o; o.kind = k; o.slot = slot; o.arg = arg; o.name = n; ops.push_back(o); }
@@ -121,7 +123,7 @@ struct EbSys {
     const OpDef& o = ops[op];
     int mut0 = -1, mut1 = -1;
     switch (o.kind) {
-      case K_UPD: case K_SER: case K_SST: mut0 = o.slot; break;
+      case K_UPD: case K_SER: case K_SST: case K_RESET: mut0 = o.slot; break;
       case K_MERGE_L: mut0 = 0; break;
       case K_MERGE_R: mut0 = 0; mut1 = o.slot; break;
       default: break;
@@ -150,7 +152,7 @@ struct EbSys {
     Buf c;
     for (int i = 0; i < NSLOT; ++i) {
       if (!s.s[i].sk) { c.ch(s.s[i].m.live ? 'd' : '_'); c.ch('|'); continue; }
-      canon_sk(c, *s.s[i].sk); c.ch('m'); c.num((long)s.s[i].m.n); c.ch('.'); c.num(s.s[i].m.nown); c.ch('.'); c.num(s.s[i].m.k); c.ch('|');
+      canon_sk(c, *s.s[i].sk); c.ch('m'); c.num((long)s.s[i].m.n); c.ch('.'); c.num(s.s[i].m.first); c.ch('.'); c.num(s.s[i].m.nown); c.ch('.'); c.num(s.s[i].m.k); c.ch('|');
     }
     if (s.has_res) { c.ch(s.last == K_RIT ? 'I' : 'R'); for (size_t i = 0; i < s.res.size(); ++i) { c.num(s.res[i]); c.ch(','); } if (s.res_runaway) c.ch('!'); }
     if (!s.note.empty()) { c.ch('!'); c.str(s.note); }
@@ -193,6 +195,12 @@ struct EbSys {
           a.sk->merge(std::move(*b.sk));
           b.sk.reset();     // the moved-from operand is only destroyed
         }
+        return true;
+      }
+      case K_RESET: {
+        if (!t.sk) return false;
+        t.m.n = 0; t.m.cum = 0; t.m.wmax = 0; t.m.first = t.m.nown; t.m.merged = false; for (int j = 0; j < NSLOT; ++j) t.m.merged_from[j] = 0;
+        t.sk->reset();
         return true;
       }
       case K_RES: {
@@ -243,6 +251,7 @@ struct EbSys {
       case K_MERGE_L: case K_MERGE_R:   // the shape of the merge is part of the check id: each shape is a separate code path
         return st.pre_src.n == 0 ? "merge/src-empty" : st.pre_tgt.n == 0 ? "merge/tgt-empty" : st.pre_src.cum > st.pre_tgt.cum ? "merge/swap" : "merge/noswap";
       case K_SER: case K_SST: return m.merged ? "ser-after-merge" : "ser";
+      case K_RESET: return "reset";
       default: return m.merged ? "res-after-merge" : "res";
     }
   }
@@ -279,7 +288,7 @@ struct EbSys {
 
   static bool all_equal_unmerged(const Model& m) {
     if (m.merged) return false;
-    for (int j = 1; j < m.nown; ++j) if (m.wown[j] != m.wown[0]) return false;
+    for (int j = m.first + 1; j < m.nown; ++j) if (m.wown[j] != m.wown[m.first]) return false;
     return true;
   }
 
@@ -294,7 +303,7 @@ struct EbSys {
     const Sk& k = *t.sk; const Model& m = t.m; const double cl = k.get_c();
     const bool frac = std::fabs(cl - std::floor(cl + 0.5)) > 1e-9;
     std::string tag = ph;
-    if (st.last == K_UPD || st.last == K_MERGE_L || st.last == K_MERGE_R || st.last == K_SER || st.last == K_SST) {
+    if (st.last == K_UPD || st.last == K_MERGE_L || st.last == K_MERGE_R || st.last == K_SER || st.last == K_SST || st.last == K_RESET) {
       tag += m.n == 0 ? "|empty" : (m.c() < (double)m.k ? (frac ? "|c<k,fractional" : "|c<k,integer") : "|c=k");
       if (all_equal_unmerged(m) && m.n <= m.k && m.n > 0) {
         // equal weights and n <= k: every item is kept (as full items)
@@ -537,6 +546,20 @@ struct Explorer {
     finish("stream k=" + str(k) + " prefix=" + ops_str(sys, std::vector<size_t>(path.begin(), path.begin() + 1 + (long)prefix.size())) + " maxlen=" + str(maxlen));
   }
 
+  // ---- (1b) a history with reset(): every weight sequence of length <= 2, reset(), every weight sequence of length <= post
+  void run_reset(int k, int post) {
+    sys.nm = "reset-k" + str(k);
+    std::vector<size_t> p0; Dist d0 = pt.root(); d0 = step(d0, p0, sys.OP_NEW[0][k]);
+    for (int a = 0; a < 3; ++a) for (int b = -1; b < 3 && pt.complete(); ++b) {
+      std::vector<size_t> path = p0; Dist d = step(d0, path, sys.OP_UPD[0][a]);
+      if (b >= 0) d = step(d, path, sys.OP_UPD[0][b]);
+      d = step(d, path, sys.OP_RESET);
+      node_checks(d, path, true, -1);
+      dfs(d, path, 3 - post + 0, 3, k);   // dfs explores maxlen - len further updates
+    }
+    finish("reset k=" + str(k) + ": weight sequences of length 1..2, reset(), then every sequence of up to " + str(post) + " further updates");
+  }
+
   // ---- (2) merges
   struct Operand { int k; std::vector<int> w; std::string label() const { std::string s = "k" + str(k) + "["; for (size_t i = 0; i < w.size(); ++i) s += str((int)WEIGHTS[w[i]]); return s + "]"; } };
 
@@ -737,6 +760,11 @@ static void add_tasks(std::vector<Task>& tasks, const Config& cfg, const bool q,
       t.fn = [A, B, q, &cfg](Report& rep) { Explorer ex(rep, cfg, GRID, q); ex.merge_pair(A, B, 1, false); ex.finish("merge " + A.label() + " <- " + B.label() + " (lighter operand holds the partial item and the heaviest weight), lvalue and rvalue, then 1 further update"); };
       tasks.push_back(t);
     }
+  }
+  for (int k = 1; k <= 3; ++k) {
+    Task t; t.name = pre + "reset/k" + str(k);
+    t.fn = [k, q, &cfg](Report& rep) { Explorer ex(rep, cfg, GRID, q); ex.run_reset(k, q ? 2 : 3); };
+    tasks.push_back(t);
   }
   // chains (A.merge(B)).merge(C) over the short operands
   {
